@@ -29,7 +29,7 @@ NUMERIC_TYPES = ('integer', 'decimal', 'float', 'double')
 _F32_MAX = '340282346638528859811704183484516925440'          # (2-2**-23)*2**127, exact
 _F32_MIN_SUB = N.dec_str(Fraction(1, 2 ** 149))                # smallest positive binary32
 _F32_MIN_NORM = N.dec_str(Fraction(1, 2 ** 126))
-_F32_SMALL = N.dec_str(Fraction(1, 2 ** 100))                  # 7.9e-31: above the 1e-37 flush of elementpath's Float()
+_F32_SMALL = N.dec_str(Fraction(1, 2 ** 100))                  # 7.9e-31: its square underflows binary32
 _F32_TENTH = '0.100000001490116119384765625'                   # binary32 nearest 0.1, exact
 _F32_THIRD = '0.3333333432674407958984375'
 
@@ -49,12 +49,32 @@ BOUNDARY = {
                '4', '-4', '6', '-6', '0.25', '0.1', '-0.1', '1.0E21', '-1.0E21', '1.0E-7', '1.0E308', '-1.0E308',
                '5E-324', '-5E-324', '9007199254740992', '-9007199254740992', '4503599627370496.5',
                '4503599627370497.5', '-4503599627370497.5', 'INF', '-INF', 'NaN', '0.49999999999999994',
-               '-0.49999999999999994', '1.7976931348623157E308', '2.2250738585072014E-308', '0.125', '7'],
+               '-0.49999999999999994', '1.7976931348623157E308', '2.2250738585072014E-308', '-2.2250738585072014E-308',
+               '1.0E-200', '-1.0E-200', '0.125', '7'],
     'float': ['0', '-0', '1', '-1', '2', '-2', '3', '-3', '0.5', '-0.5', '1.5', '-1.5', '2.5', '-2.5', '6.5', '-6.5',
               '4', '-4', '6', '-6', '0.25', _F32_TENTH, '-' + _F32_TENTH, _F32_THIRD, '16777216', '-16777216',
-              '8388607.5', '8388606.5', '-8388607.5', _F32_MAX, '-' + _F32_MAX, _F32_SMALL, '0.125',
+              '8388607.5', '8388606.5', '-8388607.5', _F32_MAX, '-' + _F32_MAX, _F32_SMALL, '-' + _F32_SMALL,
+              _F32_MIN_SUB, '-' + _F32_MIN_SUB, _F32_MIN_NORM, '0.125',
               '10000000000', '100000002004087734272', 'INF', '-INF', 'NaN', '100', '-100', '7', '-7'],
 }
+
+
+INT_SUBTYPES = {
+    'byte': (-128, 127), 'short': (-32768, 32767), 'int': (-2 ** 31, 2 ** 31 - 1), 'long': (-2 ** 63, 2 ** 63 - 1),
+    'unsignedByte': (0, 255), 'unsignedShort': (0, 65535), 'unsignedInt': (0, 2 ** 32 - 1), 'unsignedLong': (0, 2 ** 64 - 1),
+    'negativeInteger': (None, -1), 'nonPositiveInteger': (None, 0), 'nonNegativeInteger': (0, None), 'positiveInteger': (1, None),
+}
+
+
+def subint_boundary_atoms():
+    """minimum / maximum of every bounded integer subtype (+ two inner values of the half-bounded ones)"""
+    out = []
+    for t, (lo, hi) in INT_SUBTYPES.items():
+        vals = [lo if lo is not None else -5, hi if hi is not None else 7]
+        if lo is None or hi is None:
+            vals.append(-10 ** 20 if lo is None else 10 ** 20)
+        out += [[t, str(v)] for v in vals]
+    return out
 
 
 def boundary_atoms(types=NUMERIC_TYPES):
@@ -137,9 +157,11 @@ def _dyadic_lex(bits):
     return strat()
 
 
-_DBL_SPECIAL = ['INF', '-INF', 'NaN', '-0', '0', '0.1', '-0.1', '1.0E21', '1.0E-7', '1.0E308', '5E-324',
+_DBL_SPECIAL = ['INF', '-INF', 'NaN', '-0', '0', '0.1', '-0.1', '1.0E21', '1.0E-7', '1.0E308', '5E-324', '-5E-324', '1.0E-200',
+                '-1.0E-200', '-1.0E308', '2.2250738585072014E-308',
                 '1.7976931348623157E308', '0.49999999999999994', '4503599627370496.5', '4503599627370497.5', '0.3', '1.1']
-_FLT_SPECIAL = ['INF', '-INF', 'NaN', '-0', '0', _F32_TENTH, _F32_THIRD, _F32_MAX, '16777216', '8388607.5', '8388606.5']
+_FLT_SPECIAL = ['INF', '-INF', 'NaN', '-0', '0', _F32_TENTH, _F32_THIRD, _F32_MAX, '16777216', '8388607.5', '8388606.5',
+                _F32_SMALL, '-' + _F32_SMALL, _F32_MIN_SUB, '-' + _F32_MIN_SUB, _F32_MIN_NORM, '-' + _F32_MAX]
 
 
 _DYADIC53, _DYADIC24 = _dyadic_lex(53), _dyadic_lex(24)
@@ -164,7 +186,22 @@ def untyped_numeric():
     return _UNTYPED_NUM
 
 
-_BY_TYPE = {'integer': _INTEGERS, 'decimal': _DECIMALS, 'double': _DOUBLES, 'float': _FLOATS, 'untypedAtomic': _UNTYPED_NUM}
+@st.composite
+def _subint(draw):
+    t = draw(st.sampled_from(sorted(INT_SUBTYPES)))
+    lo, hi = INT_SUBTYPES[t]
+    k = draw(st.integers(0, 9))
+    if k < 5:
+        v = draw(st.sampled_from([x for x in (lo, hi) if x is not None]))
+    else:
+        v = draw(st.integers(lo if lo is not None else -10 ** 6, hi if hi is not None else 10 ** 6))
+        if k < 8:
+            v = max(lo if lo is not None else v, min(hi if hi is not None else v, draw(_small)))
+    return [t, str(v)]
+
+
+_SUBINT = _subint()
+_BY_TYPE = {'subint': _SUBINT, 'integer': _INTEGERS, 'decimal': _DECIMALS, 'double': _DOUBLES, 'float': _FLOATS, 'untypedAtomic': _UNTYPED_NUM}
 
 
 def numeric(types=NUMERIC_TYPES):
@@ -202,7 +239,7 @@ def numeric_pair(draw, types=NUMERIC_TYPES + ('untypedAtomic',)):
     k = draw(st.integers(0, 19))
     if k < 7:
         try:
-            vb = N.make(tb, b[1])
+            vb = refvalue(b)
         except ValueError:
             vb = None
         if vb is not None and N.finite(vb):
@@ -211,7 +248,7 @@ def numeric_pair(draw, types=NUMERIC_TYPES + ('untypedAtomic',)):
             qa = qb * mult
             if k >= 5:
                 qa += draw(st.sampled_from([Fraction(1), Fraction(-1), Fraction(1, 2), Fraction(-1, 2), Fraction(1, 4)]))
-            lex = lexical_for(ta, qa)
+            lex = lexical_for(ta, qa) if ta != 'subint' else None
             if lex is not None:
                 return [[ta, lex], b]
     return [draw(_BY_TYPE[ta]), b]
@@ -274,10 +311,20 @@ def pyvalue(atom):
     if t == 'untypedAtomic':
         from elementpath.datatypes import UntypedAtomic
         return UntypedAtomic(lex)
+    if t in INT_SUBTYPES:
+        from elementpath import datatypes
+        return getattr(datatypes, t[0].upper() + t[1:])(int(lex))
     raise ValueError(t)
 
 
 def refvalue(atom):
+    if atom[0] in INT_SUBTYPES:
+        # derived integer types are promoted to their base type xs:integer by the arithmetic operators (F&O 4.2)
+        lo, hi = INT_SUBTYPES[atom[0]]
+        v = N.parse('integer', atom[1])
+        if (lo is not None and v < lo) or (hi is not None and v > hi):
+            raise ValueError(atom)
+        return ('integer', v)
     return N.make(atom[0], atom[1])
 
 
